@@ -212,7 +212,9 @@ class KernelOracle:
                 self.ctx.hit("mala_vector_step")
                 return min(0.0, lxs - lx + q_bwd - q_fwd), xs, False
             gg = float(g @ g)
-            c = float(drift @ g / gg) if gg > 0 else 0.0
+            # drift coefficient of the mechanism, identified from the draw; where the gradient vanishes exactly it is not
+            # identifiable from this transition and the Langevin value eps/2 is taken (it still enters the REVERSE density)
+            c = float(drift @ g / gg) if gg > 0 else 0.5 * eps
             if not close(drift, c * g, 1e-9) and np.linalg.norm(drift - c * g) > 1e-9 * (1 + np.linalg.norm(drift)):
                 raise core.Undecided("proposal does not fit x + c*grad + xi")
             lx, lxs = self.refs["ref_logd"](x), self.refs["ref_logd"](xs)
